@@ -147,3 +147,36 @@ End Typed.
 Definition no_required_sub (E : env) : bool :=
   forallb (fun md => forallb (fun f => negb (label_eqb (f_label f) LRequired && ftype_eqb (f_type f) TMessage))
                              (md_fields md)) E.
+
+(* every retained unknown field, at every depth the serialiser visits, has a field number below 2^29 (the parser
+   accepts 5-byte keys carrying larger numbers; they are not valid protobuf field numbers): the side condition of
+   Proofs/ParseGood.v *)
+Section UnkSmall.
+Variable E : env.
+
+Definition unk_cell (rec : msg -> bool) (f : field) (v : sval) : bool :=
+  match f_type f with
+  | TMessage => match v with VMsg (Some sub) => rec sub | _ => true end
+  | _ => true
+  end.
+
+Definition unk_slot (rec : msg -> bool) (unions : list (Z * sval)) (f : field) (s : slot) : bool :=
+  match s with
+  | SOne _ v => unk_cell rec f v
+  | SRep n _ (Some l) => all_n (unk_cell rec f) l (Z.to_nat n)
+  | SRep _ _ None => true
+  | SUnion g =>
+      with_nth (fun cv : Z * sval => if fst cv =? f_id f then unk_cell rec f (snd cv) else true) true unions g
+  end.
+
+Fixpoint unk_small (m : msg) : bool :=
+  match m with
+  | Msg d slots unions unk =>
+      match nth_error E d with
+      | None => false
+      | Some md =>
+          all2 (unk_slot unk_small unions) (md_fields md) slots &&
+          forallb (fun u => u_tag u <? 536870912) unk
+      end
+  end.
+End UnkSmall.
